@@ -35,6 +35,9 @@ enum TStatus {
     Runnable,
     /// waiting for its waker; enabled iff `wakes > seen`
     Sleeping { seen: usize },
+    /// found a lock taken by another logical thread (a `blocked:` hook point): enabled again
+    /// once some thread has made progress (reached a normal point or finished) since
+    Yielding { epoch: usize },
     Finished,
 }
 
@@ -68,6 +71,8 @@ struct State {
     unfinished: Vec<String>,
     aborted: bool,
     divergence: Option<String>,
+    /// number of normal points reached / threads finished so far
+    progress: usize,
 }
 
 struct Shared {
@@ -166,7 +171,11 @@ impl Ctx {
 pub fn hook_point(label: &'static str) {
     let cur = CURRENT.with(|c| c.borrow().clone());
     if let Some((shared, id)) = cur {
-        yield_at(&shared, id, label, None);
+        if label.starts_with("blocked:") {
+            yield_blocked(&shared, id, label);
+        } else {
+            yield_at(&shared, id, label, None);
+        }
     }
 }
 
@@ -174,6 +183,7 @@ fn enabled_list(st: &State, me: usize) -> (Vec<usize>, bool) {
     let is_enabled = |t: &Thread| match t.status {
         TStatus::Runnable => true,
         TStatus::Sleeping { seen } => t.waker.count() > seen,
+        TStatus::Yielding { epoch } => st.progress > epoch,
         TStatus::Finished => false,
     };
     let me_enabled = is_enabled(&st.threads[me]);
@@ -237,16 +247,31 @@ fn schedule(shared: &Shared, st: &mut State, me: usize, label: &str) {
     shared.cv.notify_all();
 }
 
+/// The thread found a lock taken: it may only continue after another thread has run. If every
+/// unfinished thread keeps arriving here the lock holder is asleep for ever: deadlock.
+fn yield_blocked(shared: &Arc<Shared>, me: usize, label: &str) {
+    let epoch = shared.m.lock().unwrap().progress;
+    yield_with(shared, me, label, TStatus::Yielding { epoch });
+}
+
 fn yield_at(shared: &Arc<Shared>, me: usize, label: &str, sleep_seen: Option<usize>) {
+    let status = match sleep_seen {
+        Some(seen) => TStatus::Sleeping { seen },
+        None => TStatus::Runnable,
+    };
+    yield_with(shared, me, label, status);
+}
+
+fn yield_with(shared: &Arc<Shared>, me: usize, label: &str, status: TStatus) {
     let mut st = shared.m.lock().unwrap();
     if st.aborted {
         drop(st);
         std::panic::resume_unwind(Box::new(Aborted));
     }
-    st.threads[me].status = match sleep_seen {
-        Some(seen) => TStatus::Sleeping { seen },
-        None => TStatus::Runnable,
-    };
+    if !matches!(status, TStatus::Yielding { .. }) {
+        st.progress += 1;
+    }
+    st.threads[me].status = status;
     st.threads[me].parked = true;
     schedule(shared, &mut st, me, label);
     let deadline = Instant::now() + WATCHDOG;
@@ -314,6 +339,7 @@ pub fn run_once(bodies: Vec<(String, Body)>, prefix: &[usize]) -> Execution {
             unfinished: Vec::new(),
             aborted: false,
             divergence: None,
+            progress: 0,
         }),
         cv: Condvar::new(),
     });
@@ -349,6 +375,7 @@ pub fn run_once(bodies: Vec<(String, Body)>, prefix: &[usize]) -> Execution {
                 }
             }
             st.threads[id].status = TStatus::Finished;
+            st.progress += 1;
             if st.current == Some(id) {
                 schedule(&shared, &mut st, id, "exit");
             }
